@@ -54,7 +54,7 @@ theorem setUserOption_existing (s : Store) (k : Key) (v w : Val) (id : Nat) (o :
     (hn : (k.name == sPrefix) = false) (hbt : (k.name == sBuildtype) = false) (hb : s.isBuiltin k = false)
     (hk : alookup k s.options = some id) (ho : s.heap[id]? = some o) (hv : validate o.kind v = .ok w) :
     setUserOption k v true s =
-      (.ok (o.value != w),
+      (.ok (o.value != w || o.yielding),
        (s.updObj id (fun o => { o with value := w })).updObj id (fun o => { o with yielding := false })) := by
   have hfb : k.isForBuild = false := by simp [Key.isForBuild, hm]
   have hah : ahas k s.options = true := by simp [ahas, hk]
